@@ -2538,9 +2538,10 @@ get_literal(int token, YYLTYPE loc, const string &str, const YYSTYPE &value) {
     return CPPToken(CUSTOM_LITERAL, loc, str, result);
   }
 
+  // There is no expression to go with a custom literal token, so return the
+  // plain literal, as we do for an unknown suffix.
   error(fgroup->_name + " has no suitable overload for literal of this type", loc);
-  result.u.expr = nullptr;
-  return CPPToken(CUSTOM_LITERAL, loc, str, result);
+  return CPPToken(token, loc, str, value);
 }
 
 /**
